@@ -91,6 +91,48 @@ def nontrivial(case, impl_out):
     return bool(case.meta.get("conf"))
 
 
+def stacked(run):
+    """dltyped on top of another `functools.wraps` decorator: the callee underneath must still be CHECKED — a violating argument
+    never reaches it (the signature is the wrapped function's, found through `__wrapped__`)"""
+    import functools
+    import typing
+    import warnings
+
+    import numpy as np
+
+    import impl
+    from framework import Finding
+
+    dltype = impl.dltype
+    A = typing.Annotated[np.ndarray, dltype.FloatTensor["a b"]]
+    ns2 = {"A": A}
+    bad_arr = np.zeros((2,), np.float32)
+    exec("def real2(x: A, y=2.0):\n    return None\n", ns2)  # noqa: S102
+    seen2 = []
+
+    @functools.wraps(ns2["real2"])
+    def inner2(*args, **kwargs):
+        seen2.append((args, kwargs))
+        return ns2["real2"](*args, **kwargs)
+
+    with warnings.catch_warnings():
+        warnings.simplefilter("ignore")
+        dec2 = dltype.dltyped()(inner2)
+    for how, call in (("positional", lambda: dec2(bad_arr)), ("keyword", lambda: dec2(x=bad_arr)), ("positional + keyword", lambda: dec2(bad_arr, y=1.0))):
+        del seen2[:]
+        try:
+            call()
+            got = "accepted"
+        except dltype.DLTypeError as e:
+            got = type(e).__name__
+        except Exception as e:  # noqa: BLE001
+            got = "EXC " + type(e).__name__
+        run.n_cases += 1
+        if got != "DLTypeNDimsError" or seen2:
+            run.findings.append(Finding("failing-input", f"dltyped on top of another functools.wraps decorator: a violating argument passed {how} gives {got}, the callee was entered {len(seen2)} times "
+                                        "(expected DLTypeNDimsError before the callee runs)", Case(f"STACKED\t{how}", "stacked"), got, "", "DLTypeNDimsError"))
+
+
 def custom(run, tier, only_passthrough=False):
     """(1) Pass-through: the callee must receive EXACTLY the positional and keyword arguments the caller passed.  A plain
     function cannot tell `f(a, 2)` from `f(a, y=2)`; a callee with a `(*args, **kwargs)` body under a `functools.wraps`
@@ -196,6 +238,32 @@ def custom(run, tier, only_passthrough=False):
 
     if only_passthrough:
         return
+    # (1b) re-entrancy: a decorated function entered again between its argument check and its return check (recursion, mutual
+    # recursion, the same method on the nodes of a tree) — every level is a conforming call of its own, with sizes of its own
+    ns2 = {"dltype": dltype, "A": A, "np": np, "CALLS": []}
+    exec(compile(
+        "@dltype.dltyped()\ndef rec(x: A, depth: int = 0) -> A:\n    CALLS.append(('rec', depth))\n    if depth < 3:\n        rec(np.zeros((x.shape[0] + 1, x.shape[1] + 2), np.float32), depth + 1)\n    return x\n"
+        "@dltype.dltyped()\ndef ping(x: A, depth: int = 0) -> A:\n    CALLS.append(('ping', depth))\n    if depth < 3:\n        pong(np.zeros((x.shape[1], x.shape[0] + 1), np.float32), depth + 1)\n    return x\n"
+        "@dltype.dltyped()\ndef pong(x: A, depth: int = 0) -> A:\n    CALLS.append(('pong', depth))\n    if depth < 3:\n        ping(np.zeros((x.shape[1] + 2, x.shape[0]), np.float32), depth + 1)\n    return x\n"
+        "class Node:\n    def __init__(self, kids):\n        self.kids = kids\n    @dltype.dltyped()\n    def forward(self, x: A) -> A:\n        CALLS.append(('node', len(self.kids)))\n"
+        "        for i, k in enumerate(self.kids):\n            k.forward(np.zeros((x.shape[0] + i + 1, 2), np.float32))\n        return x\n",
+        "<reentrant>", "exec", dont_inherit=True), ns2)  # noqa: S102
+    tree = ns2["Node"]([ns2["Node"]([ns2["Node"]([]), ns2["Node"]([])]), ns2["Node"]([])])
+    for name, fn, want_calls in (("rec", lambda: ns2["rec"](good), 4), ("ping/pong", lambda: ns2["ping"](good), 4), ("tree of modules", lambda: tree.forward(good), 5)):
+        del ns2["CALLS"][:]
+        try:
+            out = fn()
+            got = "ok" if out is good else "ok-different-object"
+        except Exception as e:  # noqa: BLE001
+            got = type(e).__name__ + ": " + str(e)[:100]
+        n += 1
+        if got != "ok" or len(ns2["CALLS"]) != want_calls:
+            run.findings.append(Finding("failing-input", f"re-entrant conforming calls ({name}): every level conforms on its own, but the outermost call gives {got} after {len(ns2['CALLS'])} body entries (expected ok after {want_calls})",
+                                        Case(f"REENTRANT\t{name}", "reentrant"), got, "", "ok"))
+    run.n_cases += 3
+    run.n_distinct_nontrivial += 3
+    run.dist["reentrant"] += 3
+    stacked(run)
     # (2) provider histories
     from checks import c12
 
